@@ -2,7 +2,7 @@
 from harness import core, gen_deser as G
 from harness.deser_run import Producer, C_MODEL, C_SPEC
 
-NEEDED = ["Core/Json.v", "Core/Errors.v", "Core/Text.v", "Deser/Model.v", "Deser/Spec.v", "Deser/Run.v", "Deser/Proofs.v"]
+NEEDED = ["Core/Json.v", "Core/Errors.v", "Core/Text.v", "Deser/Model.v", "Deser/Spec.v", "Deser/Run.v", "Deser/Unfold.v", "Deser/Loops.v", "Deser/Proofs.v", "Deser/Examples.v"]
 
 
 def run(tier):
@@ -12,8 +12,8 @@ def run(tier):
         "floats restricted to the dyadic fragment q/4 (+nan/inf); regex patterns restricted to literal prefixes",
     ]
     R.coq_build(NEEDED)
-    n = dict(quick=(60, 6, 5), thorough=(900, 8, 8))[tier]
-    P = Producer(R, *n, depth=3, roots=True)
+    n = dict(quick=(150, 6, 5), thorough=(1500, 8, 8))[tier]
+    P = Producer(R, *n, depth=3, roots=True, matrix=2)
     P.run()
     for c in P.cases:
         if c.kind == "crash":
